@@ -718,6 +718,25 @@ def run(ctx) -> None:
     ctx.ob("C04.R3-new-wins", oo, ok, "keys_common / keys_novel partition the higher layer's keys" if ok else
            "keys_common / keys_novel no longer partition the higher layer's keys", construct="keys_common = old&new, keys_novel = new-old")
 
+    # the user's variable FILES are layered with that same deep merge: `stages:` nests one level deeper than `global:`, so a per-section
+    # dict.update lets a later file's entry for a stage replace the earlier file's whole dictionary for that stage (seed C04-14)
+    lmv = ctx.repo.module(CONF).functions.get("FlowIRExperimentConfiguration.layer_many_variable_files")
+    ctx.require(lmv is not None, "anchor missing: FlowIRExperimentConfiguration.layer_many_variable_files")
+    ctx.analysed(lmv)
+    merges_ = [x for x in ast.walk(lmv) if isinstance(x, ast.Attribute) and x.attr == "override_object"]       # called directly or through an alias
+    ret_names_ = {x.id for r in ast.walk(lmv) if isinstance(r, ast.Return) and r.value is not None for x in ast.walk(r.value) if isinstance(x, ast.Name)}
+    shallow_ = [c for c in source.calls_in(lmv, include_nested=True) if last_attr(c) == "update" and any(
+        isinstance(a, ast.For) for a in source.ancestors(c)) and isinstance(c.func, ast.Attribute)
+        and any(isinstance(x, ast.Name) and x.id in ret_names_ for x in ast.walk(c.func.value))]
+    ok = bool(merges_) and not shallow_
+    ctx.ob("C04.R3-new-wins", (shallow_ or merges_ or [lmv])[0], ok,
+           "layer_many_variable_files layers the user's files with override_object (the deep merge judged above)" if ok else
+           "layer_many_variable_files merges the user's variable files with %s instead of override_object: `stages: {0: {..}}` is one level deeper "
+           "than `global:`, so a later file's entry for a stage replaces the earlier file's whole dictionary for that stage - a user variable "
+           "the later file does not repeat silently disappears and the platform's or the default value wins"
+           % (short(shallow_[0], 60) if shallow_ else "something else"),
+           construct="layer_many_variable_files -> override_object")
+
     # ---------------- R4 -------------------------------------------------------------------------------
     conf = ctx.repo.module(CONF)
     pv = conf.func("FlowIRExperimentConfiguration._patch_in_variable_files")
